@@ -473,13 +473,13 @@ def wl_arc_utils(run, rng, idx):
 
 
 WORKLOADS = [
-    Workload("segments", wl_segments, quick=300, thorough=6000),
-    Workload("origin", wl_origin, quick=112, thorough=1600),
-    Workload("ideal", wl_ideal, quick=128, thorough=2000),
-    Workload("cone", wl_cone, quick=144, thorough=2000),
-    Workload("representatives", wl_representatives, quick=128, thorough=2000),
-    Workload("horospheres", wl_horospheres, quick=192, thorough=3000),
-    Workload("horoarcs", wl_horoarcs, quick=96, thorough=1500),
-    Workload("subspaces", wl_subspaces, quick=240, thorough=3600),
-    Workload("arc-utils", wl_arc_utils, quick=80, thorough=1200),
+    Workload("segments", wl_segments, quick=300, thorough=12000),
+    Workload("origin", wl_origin, quick=112, thorough=3200),
+    Workload("ideal", wl_ideal, quick=128, thorough=4000),
+    Workload("cone", wl_cone, quick=144, thorough=4000),
+    Workload("representatives", wl_representatives, quick=128, thorough=4000),
+    Workload("horospheres", wl_horospheres, quick=192, thorough=6000),
+    Workload("horoarcs", wl_horoarcs, quick=96, thorough=3000),
+    Workload("subspaces", wl_subspaces, quick=240, thorough=7200),
+    Workload("arc-utils", wl_arc_utils, quick=80, thorough=2400),
 ]
